@@ -32,8 +32,8 @@ PID_FIELDS = ['pid', 'lagr_pos', 'tagged', 'density', 'lagr_idx', 'packedpid']
 
 def config(tier):
     if tier == 'quick':
-        return dict(shards=16, examples=22, numba_threads=1, soft_s=150, shrink_calls=40)
-    return dict(shards=16, examples=450, numba_threads=1, soft_s=1300, shrink_calls=150)
+        return dict(shards=16, examples=22, numba_threads=1, boundscheck=[False, True], soft_s=150, shrink_calls=40)
+    return dict(shards=16, examples=450, numba_threads=1, boundscheck=[False, True], soft_s=1300, shrink_calls=150)
 
 
 @st.composite
